@@ -61,7 +61,7 @@ func (s *DIServer[T]) Respond(ctx context.Context, msgType uint8, msg io.Reader)
 	captureMsgType(ctx, msgType)
 
 	// Handle each message type
-	var err error
+	var err error = fmt.Errorf("unsupported message type %d for this responder", msgType)
 	switch msgType {
 	case protocol.DIAppStartMsgType:
 		respType = protocol.DISetCredentialsMsgType
@@ -117,7 +117,7 @@ func (s *TO0Server) Respond(ctx context.Context, msgType uint8, msg io.Reader) (
 	captureMsgType(ctx, msgType)
 
 	// Handle each message type
-	var err error
+	var err error = fmt.Errorf("unsupported message type %d for this responder", msgType)
 	switch msgType {
 	case protocol.TO0HelloMsgType:
 		respType = protocol.TO0HelloAckMsgType
@@ -162,7 +162,7 @@ func (s *TO1Server) Respond(ctx context.Context, msgType uint8, msg io.Reader) (
 	captureMsgType(ctx, msgType)
 
 	// Handle each message type
-	var err error
+	var err error = fmt.Errorf("unsupported message type %d for this responder", msgType)
 	switch msgType {
 	case protocol.TO1HelloRVMsgType:
 		respType = protocol.TO1HelloRVAckMsgType
@@ -288,7 +288,7 @@ func (s *TO2Server) Respond(ctx context.Context, msgType uint8, msg io.Reader) (
 	captureMsgType(ctx, msgType)
 
 	// Handle each message type
-	var err error
+	var err error = fmt.Errorf("unsupported message type %d for this responder", msgType)
 	switch msgType {
 	case protocol.TO2HelloDeviceMsgType:
 		respType = protocol.TO2ProveOVHdrMsgType
